@@ -6,7 +6,9 @@ pub mod dequant;
 pub mod idct;
 pub mod inter;
 pub mod intra;
+pub mod pipeline;
 pub mod refgraph;
+pub mod stream;
 pub mod deblock;
 pub mod yuv;
 
@@ -21,6 +23,8 @@ pub fn run(id: &str, tier: Tier) -> Option<Report> {
         "C10" => idct::run(tier),
         "C11" => dequant::run(tier),
         "C04" => refgraph::run(tier),
+        "C15" => stream::run(tier),
+        "C13" => pipeline::run(tier),
         "C07" => yuv::run_c07(tier),
         "C08" => yuv::run_c08(tier),
         _ => return None,
@@ -51,6 +55,7 @@ pub fn replay_file(path: &str) -> i32 {
     let case = &doc["case"];
     match case["kind"].as_str().unwrap_or("") {
         "yuv" => yuv::replay(case),
+        "stream" => stream::replay(case),
         "decode" => common::replay_decode(case),
         "deblock" => deblock::replay(case),
         k => {
